@@ -66,6 +66,10 @@ def _render(env, name, **kw):
 
 def native_context(w=None):
     problems = guarded(_context_problems)
+    if not problems:
+        # family of the defect found in the hunt round and repaired since (b42cb82: `loop` for includes / imports with context)
+        v, d = native_loop_in_include(w)
+        problems = [d] if v else []
     return (bool(problems), "; ".join(problems[:3]) or "include/import template families agree with the documented visibility rules")
 
 
